@@ -297,4 +297,81 @@ theorem exec_wf {P c h e h' o} (hex : Exec P c h e h' o) :
   | ret => intro hw he; exact ⟨hw, Nat.le_refl _, he _⟩
   | raise => intro hw _; exact ⟨hw, Nat.le_refl _, wfval_scalar _⟩
 
+
+/-! ## Old objects: closedness of the pre-existing part of the heap -/
+
+/-- The objects that existed when the activation started (`id < n0`) point only to such objects. -/
+def OldClosed (n0 : Nat) (h : Heap) : Prop :=
+  ∀ a, a < n0 → ∀ k c, h.obj a k = .ref c → c < n0
+
+/-- No object that existed when the activation started has gained a reference. -/
+def NoNew (n0 : Nat) (h h' : Heap) : Prop :=
+  ∀ a, a < n0 → ∀ k c, h'.obj a k = .ref c → h.obj a k = .ref c
+
+/-- From an object that existed when the activation started, what is reachable in `h'` was reachable in
+`h` or is a new object. -/
+def KeepOld (n0 : Nat) (h h' : Heap) : Prop :=
+  ∀ a, a < n0 → ∀ o, Reach h' a o → Reach h a o ∨ n0 ≤ o
+
+theorem oldclosed_of_wf {h : Heap} (hw : WFHeap h) : OldClosed h.next h :=
+  fun a ha k c hc => hw a k ha c hc
+
+theorem nonew_refl (n0 h) : NoNew n0 h h := fun _ _ _ _ hc => hc
+
+theorem nonew_trans {n0 h h1 h2} (a1 : NoNew n0 h h1) (a2 : NoNew n0 h1 h2) : NoNew n0 h h2 :=
+  fun a ha k c hc => a1 a ha k c (a2 a ha k c hc)
+
+theorem nonew_mono {n0 n1 h h'} (hn : n0 ≤ n1) (a : NoNew n1 h h') : NoNew n0 h h' :=
+  fun x hx k c hc => a x (Nat.lt_of_lt_of_le hx hn) k c hc
+
+theorem oldclosed_nonew {n0 h h'} (hc : OldClosed n0 h) (hn : NoNew n0 h h') : OldClosed n0 h' :=
+  fun a ha k c he => hc a ha k c (hn a ha k c he)
+
+theorem nonew_of_untouched {n0} {h h' : Heap} (hu : ∀ a, a < n0 → h'.obj a = h.obj a) : NoNew n0 h h' := by
+  intro a ha k c hc
+  rw [hu a ha] at hc; exact hc
+
+theorem keepold_refl (n0 h) : KeepOld n0 h h := fun _ _ _ hr => Or.inl hr
+
+theorem keepold_trans {n0 h h1 h2} (k1 : KeepOld n0 h h1) (k2 : KeepOld n0 h1 h2) : KeepOld n0 h h2 := by
+  intro a ha o hr
+  rcases k2 a ha o hr with h1r | hge
+  · exact k1 a ha o h1r
+  · exact Or.inr hge
+
+theorem keepold_of_keep {n0 h h'} (hn : n0 ≤ h.next) (k : Keep n0 h h') : KeepOld n0 h h' :=
+  fun a ha o hr => k a (Nat.lt_of_lt_of_le ha hn) o hr
+
+/-- If the old objects point only to old objects and none of them is touched, nothing changes for them. -/
+theorem keepold_of_untouched {n0} {h h' : Heap} (hc : OldClosed n0 h)
+    (hu : ∀ a, a < n0 → h'.obj a = h.obj a) : KeepOld n0 h h' := by
+  intro a ha o hr
+  have : Reach h a o ∧ o < n0 := by
+    induction hr with
+    | refl => exact ⟨Reach.refl _, ha⟩
+    | @step b c k _ e ih =>
+      obtain ⟨ihr, hb⟩ := ih
+      rw [hu b hb] at e
+      exact ⟨Reach.step ihr e, hc b hb k c e⟩
+  exact Or.inl this.1
+
+theorem alloc_untouched {h : Heap} {n0 : Nat} (hn : n0 ≤ h.next) : ∀ a, a < n0 → h.alloc.obj a = h.obj a := by
+  intro a ha
+  have : a ≠ h.next := by omega
+  simp [Heap.alloc, this]
+
+theorem write_untouched {h : Heap} {n0 id k v} (hid : n0 ≤ id) : ∀ a, a < n0 → (h.write id k v).obj a = h.obj a := by
+  intro a ha
+  have : a ≠ id := by omega
+  simp [Heap.write, this]
+
+theorem nonew_write_scalar {n0 h id k} : NoNew n0 h (h.write id k .scalar) := by
+  intro a _ j c hc
+  simp only [Heap.write] at hc
+  by_cases ha : a = id
+  · by_cases hj : j = k
+    · simp [ha, hj] at hc
+    · simpa [ha, hj] using hc
+  · simpa [ha] using hc
+
 end Pymeeus.Effects
